@@ -118,6 +118,8 @@ structure Snap where
   dim : Nat
   nodes : Array NodeRect
   paths : Array (List PathPt)
+  /-- per edge: the `C` line of a closed path (empty for ordinary edges) -/
+  cinfo : Array (List Nat) := #[]
   deriving Inhabited
 
 def parsePath (ts : Array String) : Option (Nat × List PathPt) := do
@@ -137,7 +139,8 @@ def parseSnaps (c : Case) (nNodes nEdges : Nat) : Option (Array Snap) := do
     if l.size == 0 then continue
     if l[0]! == "S" then
       out := out.push { kind := l[1]?.getD "?", dim := nat! (l[2]?.getD "2"),
-                        nodes := Array.replicate nNodes default, paths := Array.replicate nEdges [] }
+                        nodes := Array.replicate nNodes default, paths := Array.replicate nEdges [],
+                        cinfo := Array.replicate nEdges [] }
     else if l[0]! == "R" && l.size ≥ 6 && out.size > 0 then
       let v ← nums? (l.extract 2 6)
       let i := nat! l[1]!
@@ -149,10 +152,15 @@ def parseSnaps (c : Case) (nNodes nEdges : Nat) : Option (Array Snap) := do
       let s := out.back!
       if e < s.paths.size then
         out := out.pop.push { s with paths := s.paths.set! e pts }
+    else if l[0]! == "C" && l.size ≥ 8 && out.size > 0 then
+      let e := nat! l[1]!
+      let s := out.back!
+      if e < s.cinfo.size then
+        out := out.pop.push { s with cinfo := s.cinfo.set! e ((l.extract 2 8).toList.map nat!) }
   return out
 
 /-- first violated state invariant, as (check name, detail, edge, leg, node) -/
-def firstViolation (ends : Array (Nat × Nat)) (s : Snap) : Option (String × String × Nat × Nat × Nat) := Id.run do
+def firstViolation (ends : Array (Nat × Nat)) (s : Snap) (cyc : Array Bool := #[]) : Option (String × String × Nat × Nat × Nat) := Id.run do
   let nodes := s.nodes.toList
   if !noNodeOverlap nodes then
     match firstOverlap nodes with
@@ -161,6 +169,20 @@ def firstViolation (ends : Array (Nat × Nat)) (s : Snap) : Option (String × St
   for e in [0:s.paths.size] do
     let path := s.paths[e]!
     let (src, dst) := ends[e]!
+    if cyc.getD e false then
+      -- closed boundary path: closed and consistent list, no segment through a node, every
+      -- bend (the join point included) turns around its node
+      if !cycleClosed path || !cycleListConsistent (s.cinfo.getD e []) path then
+        return some ("cycle-broken", s!"closed path {e} is no longer a consistent cycle: {path.length} points listed, first ({(path.head?.map (·.node)).getD 0},{(path.head?.map (·.ri)).getD 0}) last ({(path.getLast?.map (·.node)).getD 0},{(path.getLast?.map (·.ri)).getD 0}), [nSegments, walked, reachedLast, closed, ring, ringClosed] = {s.cinfo.getD e []}", e, 0, 0)
+      if !noSegmentThroughNode nodes path then
+        match firstSegThroughNode nodes path with
+        | some (j, k) => return some ("seg-through-node", s!"closed path {e} segment {j} of {path.length - 1} passes through node {k}", e, j, k)
+        | none => return some ("seg-through-node", s!"closed path {e}", e, 0, 0)
+      if !bendsAtCorners nodes (cycleBendPath path) then
+        let j := (firstBadBend nodes (cycleBendPath path)).getD 0
+        let v := (cycleBendPath path).getD j default
+        return some ("bad-bend", s!"closed path {e} bend {j} (node {v.node} corner {v.ri}) is not a tight bend around its node", e, j, v.node)
+      continue
     if !endsUnchanged nodes src dst path then
       return some ("ends-changed", s!"edge {e} no longer runs centre({src}) → centre({dst})", e, 0, 0)
     if !noSegmentThroughNode nodes path then
@@ -231,13 +253,15 @@ def checkScene (c : Case) : CaseResult := Id.run do
   let endsL := c.get "E"
   let ends : Array (Nat × Nat) := endsL.map fun l => (nat! l[1]!, nat! l[2]!)
   let abortTxt : Option String := (c.get1 "ABORT").map fun l => " ".intercalate l.toList
+  let cycIds := (c.get "Y").map fun l => nat! l[0]!
+  let cyc : Array Bool := (Array.range ends.size).map fun e => cycIds.contains e
   match parseSnaps c nNodes ends.size with
   | none => return { verdict := .diverge "unparsable state line" }
   | some snaps =>
     if snaps.size == 0 then
       return { verdict := .ok, nontrivial := false, stats := [("scene.empty", 1)] }
     -- preconditions: the initial scene must itself satisfy the invariants
-    match firstViolation ends snaps[0]! with
+    match firstViolation ends snaps[0]! cyc with
     | some (name, _, _, _, _) =>
       -- not a verdict on the library: the generator is expected to keep this counter at 0
       return { verdict := .ok, nontrivial := false,
@@ -262,7 +286,7 @@ def checkScene (c : Case) : CaseResult := Id.run do
       -- a state dumped at an abort inside applyResizes mixes the original rectangles with
       -- paths pinned to the temporary lhs/rhs dummy nodes: not judged (reported as crash below)
       let judge := !(s.kind == "abort" && s.dim == 2)
-      match (if judge then firstViolation ends s else none) with
+      match (if judge then firstViolation ends s cyc else none) with
       | some (name, detail, e, j, k) =>
         let cls :=
           if name == "seg-through-node" then
@@ -273,8 +297,26 @@ def checkScene (c : Case) : CaseResult := Id.run do
                  stats := [("scene.fail." ++ cls, 1)] }
       | none => pure ()
       -- side signature for single-axis steps
+      -- closed paths: inside / outside of every node (any step), exact crossing counts (one axis)
+      for e in [0:s.paths.size] do
+        if cyc.getD e false && s.kind != "init" && !(s.kind == "abort" && s.dim == 2) then
+          sigChecks := sigChecks + 1
+          let ia := cycleInside prev.nodes.toList prev.paths[e]!
+          let ib := cycleInside s.nodes.toList s.paths[e]!
+          if ia != ib then
+            let k := (firstDiffIdx ia ib).getD 0
+            return { verdict := .specfail s!"class=cycle-side-changed {where_}: node {k} changed between inside and outside of closed path {e}: crossing parity (x-ray, y-ray) {ia.getD k (false,false)} → {ib.getD k (false,false)}{ab}",
+                     stats := [("scene.fail.cycle-side-changed", 1)] }
+          if s.dim < 2 then
+            let sa := cycleSignature s.dim prev.nodes.toList prev.paths[e]!
+            let sb := cycleSignature s.dim s.nodes.toList s.paths[e]!
+            if sa != sb then
+              let k := (firstDiffIdx sa sb).getD 0
+              return { verdict := .specfail s!"class=cycle-side-changed {where_}: closed path {e} passes node {k} differently: crossings before/at centre {sa.getD k (0,0)} → {sb.getD k (0,0)}{ab}",
+                       stats := [("scene.fail.cycle-side-changed", 1)] }
       if s.dim < 2 then
         for e in [0:s.paths.size] do
+          if cyc.getD e false then continue
           let sa := sideSignature s.dim prev.nodes.toList prev.paths[e]!
           let sb := sideSignature s.dim s.nodes.toList s.paths[e]!
           sigChecks := sigChecks + 1
@@ -287,6 +329,7 @@ def checkScene (c : Case) : CaseResult := Id.run do
       -- count on both axes, corrected for path end points passing over the ray
       if s.dim == 2 && s.kind != "abort" && s.kind != "init" then
         for e in [0:s.paths.size] do
+          if cyc.getD e false then continue
           sigChecks := sigChecks + 1
           match firstParityDiff prev.nodes.toList s.nodes.toList prev.paths[e]! s.paths[e]! with
           | some (k, d) =>
